@@ -1,0 +1,55 @@
+//go:build verif
+
+// Contracts for the verifier in /verif (comment-only file; contributes no declarations).
+package remedies
+
+// utils.NewMemoryCache is the only Cache implementation in this tree.
+//@ devirtall Cache => *MemoryCache
+// a deterministic function of its arguments (SHA-256 + hex of the selected path parameters)
+//@ pure extractHashedPathParams
+
+// ---------------------------------------------------------------- response-based throttling (C12)
+//@ ghost func rbtCache(p *ResponseBasedThrottlingPlugin) *utils.MemoryCache[CacheKey,CachedResponse] = p.responseCache.(*utils.MemoryCache[CacheKey,CachedResponse])
+//@ ghost func rbtOK(p *ResponseBasedThrottlingPlugin) bool = p != nil && typeis(p.responseCache, *utils.MemoryCache[CacheKey,CachedResponse]) && rbtCache(p) != nil && rbtCache(p).clock != nil && rbtCache(p).cache != nil
+
+//@ func calcNewRetryAfter
+//@   prop C12
+//@   modifies nothing
+//@   ensures[passed]  result1 != nil <==> real(lapsedTime) / 1000000000.0 >= retryAfterSeconds
+//@   ensures[reduced] result1 == nil ==> result0 == sprintf("%v", retryAfterSeconds - real(lapsedTime) / 1000000000.0)
+
+//@ func getUpdatedHeaders
+//@   prop C12
+//@   requires remedyConfig != nil
+//@   allocates map
+//@   modifies now
+//@   loop 1 invariant[dom]  forall(k, string, in(k, headers) <==> seen1[k])
+//@   loop 1 invariant[val]  forall(k, string, seen1[k] ==> headers[k] == ite(k == remedyConfig.RetryAfterHeader, updatedRetryAfter, cachedResponse.Headers[k]))
+//@   ensures[unmodified-when-absolute] result1 == nil && remedyConfig.RetryAfterType != sharedConfig.RetryAfterRelativeSeconds ==> result0 == cachedResponse.Headers
+//@   ensures[fresh-copy] result1 == nil && remedyConfig.RetryAfterType == sharedConfig.RetryAfterRelativeSeconds ==> result0 != nil && !old(allocated(result0)) && forall(k, string, in(k, result0) <==> in(k, cachedResponse.Headers)) && forall(k, string, in(k, result0) && k != remedyConfig.RetryAfterHeader ==> result0[k] == cachedResponse.Headers[k])
+//@   ensures[reduced0] result1 == nil && remedyConfig.RetryAfterType == sharedConfig.RetryAfterRelativeSeconds && in(remedyConfig.RetryAfterHeader, cachedResponse.Headers) ==> result0[remedyConfig.RetryAfterHeader] == updatedRetryAfter
+//@   ensures[reduced1] result1 == nil && remedyConfig.RetryAfterType == sharedConfig.RetryAfterRelativeSeconds ==> updatedRetryAfter == sprintf("%v", retryAfter - real(lapsedTime) / 1000000000.0)
+//@   ensures[reduced2] result1 == nil && remedyConfig.RetryAfterType == sharedConfig.RetryAfterRelativeSeconds ==> retryAfter == strconv.ParseFloat(cachedResponse.Headers[remedyConfig.RetryAfterHeader], 64)
+//@   ensures[reduced3] result1 == nil && remedyConfig.RetryAfterType == sharedConfig.RetryAfterRelativeSeconds ==> lapsedTime == now() - cachedResponse.CreationTime
+//@   ensures[reduced] result1 == nil && remedyConfig.RetryAfterType == sharedConfig.RetryAfterRelativeSeconds && in(remedyConfig.RetryAfterHeader, cachedResponse.Headers) ==> result0[remedyConfig.RetryAfterHeader] == sprintf("%v", strconv.ParseFloat(cachedResponse.Headers[remedyConfig.RetryAfterHeader], 64) - real(now() - cachedResponse.CreationTime) / 1000000000.0)
+
+//@ func (*ResponseBasedThrottlingPlugin).OnRequest
+//@   prop C12
+//@   requires rbtOK(plugin) && remedyConfig != nil && plugin.clock != nil
+//@   allocates map, NoOpAction, EarlyResponseAction
+//@   modifies now
+//@   ensures[action-kind] result1 == nil && (typeis(result0, *actions.NoOpAction) || typeis(result0, *actions.EarlyResponseAction))
+//@   ensures[served-only-if-stored-same-key] seq: typeis(result0, *actions.EarlyResponseAction) ==> in(CacheKey{onRequest.Method, onRequest.URL}, rbtCache(plugin).cache) && result0.(*actions.EarlyResponseAction).Status == rbtCache(plugin).cache[CacheKey{onRequest.Method, onRequest.URL}].value.Status && result0.(*actions.EarlyResponseAction).Body == rbtCache(plugin).cache[CacheKey{onRequest.Method, onRequest.URL}].value.Body
+//@   ensures[served-only-while-fresh] seq: typeis(result0, *actions.EarlyResponseAction) ==> old(now()) <= rbtCache(plugin).cache[CacheKey{onRequest.Method, onRequest.URL}].expirationTimeNano
+//@   ensures[miss-passes] seq: !in(CacheKey{onRequest.Method, onRequest.URL}, rbtCache(plugin).cache) ==> typeis(result0, *actions.NoOpAction)
+//@   ensures[cache-untouched] seq: forall(k, CacheKey, (in(k, rbtCache(plugin).cache) <==> old(in(k, rbtCache(plugin).cache))) && rbtCache(plugin).cache[k] == old(rbtCache(plugin).cache[k]))
+
+//@ func (*ResponseBasedThrottlingPlugin).OnResponse
+//@   prop C12
+//@   requires rbtOK(plugin) && remedyConfig != nil && plugin.clock != nil
+//@   allocates map, NoOpAction
+//@   modifies mapof(rbtCache(plugin).cache), rbtCache(plugin).currentCacheSize, now
+//@   ensures[noop] result1 == nil && typeis(result0, *actions.NoOpAction)
+//@   ensures[store-if-absent] seq: forall(k, CacheKey, old(in(k, rbtCache(plugin).cache)) && old(now()) <= old(rbtCache(plugin).cache[k].expirationTimeNano) && now() <= old(rbtCache(plugin).cache[k].expirationTimeNano) ==> in(k, rbtCache(plugin).cache) && rbtCache(plugin).cache[k] == old(rbtCache(plugin).cache[k]))
+//@   ensures[only-own-key] seq: forall(k, CacheKey, k != CacheKey{onResponse.Method, onResponse.URL} ==> (in(k, rbtCache(plugin).cache) <==> old(in(k, rbtCache(plugin).cache))) && rbtCache(plugin).cache[k] == old(rbtCache(plugin).cache[k]))
+//@   ensures[stored-is-this-response] seq: in(CacheKey{onResponse.Method, onResponse.URL}, rbtCache(plugin).cache) && !old(in(CacheKey{onResponse.Method, onResponse.URL}, rbtCache(plugin).cache)) ==> rbtCache(plugin).cache[CacheKey{onResponse.Method, onResponse.URL}].value.Status == onResponse.Status && rbtCache(plugin).cache[CacheKey{onResponse.Method, onResponse.URL}].value.Body == onResponse.Body && rbtCache(plugin).cache[CacheKey{onResponse.Method, onResponse.URL}].value.Headers == onResponse.Headers
